@@ -408,6 +408,31 @@ def rule_matches_macro(body, applied):
     return body
 
 
+def rule_for_enumerate(body, applied):
+    """R29: `for (I, X) in E.iter().enumerate() { B }` -> `for I in 0..E.len() { let X = &E[I]; B }` and
+    `for (I, X) in E.iter_mut().enumerate() { B }` -> `for I in 0..E.len() { let X = &mut E[I]; B }`
+    (E a place expression; enumerate counts from 0 over the elements in order). A pattern `&X` binds by value: `let X = E[I];`."""
+    n = 0
+    while True:
+        m, _ = mask(body)
+        mm = re.compile(r'\bfor\s+\(\s*(\w+)\s*,\s*(&?\s*\w+)\s*\)\s+in\s+((?:[A-Za-z_]\w*)(?:\s*\.\s*[A-Za-z_]\w*)*?)\s*\.\s*(iter|iter_mut)\(\)\s*\.\s*enumerate\(\)\s*\{').search(m)
+        if not mm:
+            break
+        i, x, e, kind = mm.groups()
+        e = re.sub(r'\s+', '', e)
+        x = x.replace(' ', '')
+        if x.startswith('&'):
+            bind = 'let %s = %s[%s];' % (x[1:], e, i)
+        elif kind == 'iter_mut':
+            bind = 'let %s = &mut %s[%s];' % (x, e, i)
+        else:
+            bind = 'let %s = &%s[%s];' % (x, e, i)
+        body = body[:mm.start()] + 'for %s in 0..%s.len() { %s' % (i, e, bind) + body[mm.end():]
+        applied.append({'rule': 'R29', 'pattern': 'for (%s, %s) in %s.%s().enumerate()' % (i, x, e, kind)})
+        n += 1
+    return body
+
+
 def rule_defunctionalise(body, applied):
     """R15: `let f = match V { P1 => g::<T1>, P2 => g::<T2>, .. }; ... f(args);`  (Verus has no function pointers)
     -> the `let` is removed and the call becomes `match V { P1 => g::<T1>(args), P2 => g::<T2>(args), .. };`.
@@ -1049,6 +1074,7 @@ def emit_fn(contract, verified, info, key_override=None, skip_sigcheck_name=None
     body = rule_and_then_chain(body, applied)
     body = rule_matches_macro(body, applied)
     body = rule_for_zip_enumerate(body, applied)
+    body = rule_for_enumerate(body, applied)
     body = rule_enumerate_find_filter_map(body, applied)
     body = rule_for_over_vec(body, applied)
     body = rule_for_range_with_continue(body, applied)
@@ -1064,7 +1090,11 @@ def emit_fn(contract, verified, info, key_override=None, skip_sigcheck_name=None
         # if it verifies, the requires clause is contradictory (every postcondition would hold vacuously)
         ob = body.index('{')
         body = body[:ob + 1] + '\n    proof { let vacuity_probe = 0int; assert(vacuity_probe == 1); }' + body[ob + 1:]
-    return '//@@BEGIN %s\n' % (key_override or contract.key) + head + '\n' + body + '\n//@@END %s\n' % (key_override or contract.key)
+    # loop_isolation(false): loop bodies see the facts established before the loop about variables the loop does not
+    # modify (so hoisting an expression out of a loop, a harmless edit, does not break the proof)
+    complex_inv = any(k == 'loop' and re.search(r'^\s*(invariant_except_break|ensures)\b', t, re.M) for k, a, t in contract.directives)
+    iso = '#[verifier::loop_isolation(false)]\n' if nloops > 0 and LOOP_ISOLATION_OFF and not complex_inv else ''
+    return '//@@BEGIN %s\n' % (key_override or contract.key) + iso + head + '\n' + body + '\n//@@END %s\n' % (key_override or contract.key)
 
 
 def vacuous_head(head):
@@ -1083,6 +1113,7 @@ def vacuous_head(head):
 # --------------------------------------------------------------------------
 # contracts whose text needs the signature / interpreter shims: never pulled into other units by //@stubrest
 STAMPING = False
+LOOP_ISOLATION_OFF = True
 try:
     LOOPCOUNTS = json.load(open(os.path.join(VERIF, 'contracts', 'loopcounts.json')))
 except Exception:
